@@ -2,29 +2,52 @@
 
 Spec: specs/Columnfile.tla (alias structure of columnfile). Mode B: every transition TLC explores
 (one representative path per distinct state + each outgoing operation) is replayed through a real
-columnfile, started six ways, and the projection of the real object (titles, nrows, ncols, contents
+columnfile, started eight ways, and the projection of the real object (titles, nrows, ncols, contents
 of the __data view and of the attribute view, canonical memory-region numbering of every array -
 including the item view cf[t], cf.getcolumn(t), the rows of the array a get_bigarray call returned,
 and the attribute / item views of the last copy -, list/array mode, the user's stale reference, the
 last copy as a full object: titles, nrows, ncols, views) is compared with the model state; the
 property's clauses are additionally judged directly on the real object and on the copy.
 
+REFUSED operations (Columnfile.tla RefusedOp / RefusedAlphabet, law RefusedNoTrace): in every state every operation
+that validates its input is also called with an input it has to refuse (ragged set_bigarray with the first column of
+the right / of another length, through the method and through the bigarray property; one column too many as list and
+as 2-D array; a column one too long through addcolumn / setcolumn / cf[t] = / cf.t =, old and new title; setcolumn of
+a missing title; filter / copyrows with a mask one too long; removerows / sortby of a missing title; copyrows /
+reorder with an index = nrows; reorder with nrows - 1 indices).  The exception is caught, the object is re-used: its
+projection (and that of the last copy and of the user's reference, exact values and dtypes included) must be the one
+before the call; in the random long behaviours the history goes on after the refused call.  A call that does not
+raise is not judged by itself (counted as refused_but_ACCEPTED_*: cf[t] = one value on a table of 0 rows broadcasts).
+
+VALUES: the model's labels 0..2 stand, in the start forms dict_mixed / dict_f32first / dict_bigint, for values the
+other columns' dtypes cannot hold (int64 first column + float32 label+1/4; float32 first column + float64
+label+1/4+2^-30; float64 first column + int64 ids 2^53+1+label; new columns float64 label+1/4+2^-30; set_bigarray
+lists of int64 + float32 + float64 columns).  The comparison with the model decodes exactly these encodings; every row
+operation (filter, removerows, reorder, sortby) and every copy / row-copy is additionally judged on the exact stored
+numbers (hex) and the dtype of every column: after = before[rows], same dtype.
+
 Instance families the model is covariant in and that only the harness varies (each counted in the
-evidence notes under "families"): start form (dict / newcolumnfile+addcolumn / text / hdf / dict with
-int64+float32 columns / dict with strided views of one block), mask and index call shapes (ndarray /
+evidence notes under "families"): start form (dict / newcolumnfile+addcolumn / text / hdf / dict with strided views
+of one block / the three mixed-dtype dict forms above), mask and index call shapes (ndarray /
 list, int32 / int64), the container of an array argument of the LAST operation of a history (ndarray /
 python list for addcolumn, setcolumn, cf[new] = ..), removerows values as list / tuple.
 
 Not judged (outside the statement; recorded under notes["observations"]): cf.t = python list,
 cf.t = 0-d array, cf[new] = scalar, addcolumn on a newcolumnfile(titles) that never received data,
-removerows with an empty value list, int64 values beyond 2^53 through bigarray.
+removerows with an empty value list, int64 values beyond 2^53 through bigarray (np.asarray of a mixed list: the
+dict_bigint start form is therefore not used for histories with get_bigarray), which exception type a refused call
+raises.  Not covered: HDF-loaded files whose first title is one of the integer titles (the titles of the model are
+a, b, c; the list-of-arrays storage with an integer first column is reached through colfile_from_dict and
+set_bigarray(list)).
 """
 import os, sys, json, itertools, time, zlib
 import numpy as np
 import common
 
 PROP = "C17"
-BUGS = ["BUG_GETBIG", "BUG_SCALAR", "BUG_ARRATTR", "BUG_ADDARR", "BUG_SLICE", "BUG_CPNCOLS", "BUG_OVERLIST"]
+BUGS = ["BUG_GETBIG", "BUG_SCALAR", "BUG_ARRATTR", "BUG_ADDARR", "BUG_SLICE", "BUG_CPNCOLS", "BUG_OVERLIST",
+        "BUG_REFUSED_NROWS"]
+WORKERS = 4     # the box is short of memory: one JVM at a time, few workers
 ALIAS_FINDING = "C17-aliased-columns-reorder"
 # proposed ids (audit D): matched structurally in known_problem(); without an entry in known_findings.json
 # the same failures are violations
@@ -46,7 +69,7 @@ def cfg(name, depth, emit, alias=False, bugs=(), props=True, invs=True, action_c
     if emit == 2:
         inv = inv + ["EmitFinal"]
     return common.write_cfg(os.path.join(common.scratch(), name + ".cfg"), constants=consts,
-                            invariants=inv, properties=(["RowOpsUniform"] if props else []),
+                            invariants=inv, properties=(["RowOpsUniform", "RefusedNoTrace"] if props else []),
                             view="View", action_constraint=("EmitTransition" if emit in (1, 3) else None))
 
 
@@ -55,6 +78,30 @@ def cfg(name, depth, emit, alias=False, bugs=(), props=True, invs=True, action_c
 
 def pattern(v, n):
     return np.array([(v + i) % 3 for i in range(n)], dtype=float)
+
+
+# VALUES behind the model's labels 0..2 (start forms VALUED): label + a fraction that the other dtypes of the table
+# cannot hold.  F64 needs 31 bits of mantissa (not a float32, not an integer), F32 is exact in float32 (not an integer),
+# BIG + label is an int64 id beyond 2^53 (BIG and BIG + 2 are not float64 values; BIG is a multiple of 3).
+# Label arithmetic (+v mod 3, astype(int) == v, |x - v| < 1/2 or 3/2, ordering) commutes with these encodings.
+F64 = 0.25 + 2.0 ** -30
+F32 = 0.25
+BIG = 2 ** 53 + 1
+VALUED = ("dict_mixed", "dict_f32first", "dict_bigint")
+START_DTYPES = {"dict": ["float64", "float64"], "new": ["float64", "float64"], "text": ["float64", "float64"],
+                "hdf": ["float64", "float64"], "dict_strided": ["float64", "float64"],
+                "dict_mixed": ["int64", "float32"], "dict_f32first": ["float32", "float64"],
+                "dict_bigint": ["float64", "int64"]}
+
+
+def _label(x):
+    """the model's label of a stored value: exact inverse of the encodings, anything else stays as it is"""
+    if isinstance(x, int):
+        return x - BIG if BIG <= x <= BIG + 2 else x
+    fl = np.floor(x)
+    if x == fl or (0 <= fl <= 2 and (x - fl) in (F32, F64)):
+        return int(fl)
+    return x
 
 
 class Real(object):
@@ -67,8 +114,14 @@ class Real(object):
         if start == "dict":
             self.cf = C.colfile_from_dict({"a": a, "b": b})
         elif start == "dict_mixed":
-            # other dtypes: the alias structure does not depend on them
-            self.cf = C.colfile_from_dict({"a": a.astype(np.int64), "b": b.astype(np.float32)})
+            # integer first column, fractional float32 next to it (new columns: fractional float64)
+            self.cf = C.colfile_from_dict({"a": a.astype(np.int64), "b": (b + F32).astype(np.float32)})
+        elif start == "dict_f32first":
+            # float32 first column, float64 values that are not float32 values next to it
+            self.cf = C.colfile_from_dict({"a": (a + F32).astype(np.float32), "b": b + F64})
+        elif start == "dict_bigint":
+            # float first column, int64 ids beyond 2^53 next to it
+            self.cf = C.colfile_from_dict({"a": a + F64, "b": b.astype(np.int64) + BIG})
         elif start == "dict_strided":
             # two non-contiguous views of one block (as the g-vector columns in updateGV): disjoint elements
             blk = np.array([[0., 2.], [1., 0.], [2., 1.]])
@@ -88,6 +141,60 @@ class Real(object):
         self.cp = None
         self.ret = None
         self.listarg = False
+        self.raised = None
+        self.frac = F64 if start in VALUED else 0.0
+
+    def pat(self, v, n):
+        """a fresh float64 column with labels pattern(v, n)"""
+        return pattern(v, n) + self.frac
+
+    def _refused(self, op, n):
+        """a call that has to raise (wrong length / shape / title / index)"""
+        cf = self.cf
+        kind = op[1]
+        nt = len(cf.titles)
+        if kind == "setbig_ragged":
+            first, other = op[2], op[3]
+            ar = [self.pat(i, first) for i in range(nt - 1)] + [self.pat(0, other)]
+            if first % 2:
+                cf.set_bigarray(ar)
+            else:
+                cf.bigarray = ar
+        elif kind == "setbig_ncols":
+            ar = [self.pat(i, n) for i in range(nt + 1)]
+            cf.set_bigarray(np.array(ar) if op[2] == 1 else ar)
+        elif kind == "column_len":
+            col = self.pat(1, n + 1)
+            route, t = op[2], op[3]
+            if route == "addcolumn":
+                cf.addcolumn(col, t)
+            elif route == "setcolumn":
+                cf.setcolumn(col, t)
+            elif route == "setitem":
+                cf[t] = col
+            elif route == "setattr":
+                setattr(cf, t, col)
+            else:
+                raise common.MachineryError("unknown route %r" % (op,))
+        elif kind == "setcolumn_missing":
+            cf.setcolumn(self.pat(0, n), op[2])
+        elif kind == "filter_len":
+            cf.filter(np.ones(n + 1, dtype=bool))
+        elif kind == "copyrows_len":
+            self.cp = cf.copyrows(np.ones(n + 1, dtype=bool))
+        elif kind == "missing":
+            if op[2] == "removerows":
+                cf.removerows("z", [1])
+            else:
+                cf.sortby("z")
+        elif kind == "copyrows_oob":
+            self.cp = cf.copyrows([n])
+        elif kind == "reorder_oob":
+            cf.reorder(np.array(list(range(max(n - 1, 0))) + [n]))
+        elif kind == "reorder_short":
+            cf.reorder(np.arange(n - 1))
+        else:
+            raise common.MachineryError("unknown refused operation %r" % (op,))
 
     def apply(self, op, last=False):
         """last: op is the final operation of the history (its state is judged at once): only then an array
@@ -97,7 +204,20 @@ class Real(object):
         n = cf.nrows
         self.ret = None
         self.listarg = False
-        if name in ("addnew", "setitem_new"):
+        self.raised = None
+        pattern = self.pat
+        if name == "refused":
+            fam("refused_" + op[1])
+            try:
+                self._refused(op, n)
+            except common.MachineryError:
+                raise
+            except Exception as e:
+                self.raised = type(e).__name__
+            else:
+                # not judged by itself: the state after the call decides
+                fam("refused_but_ACCEPTED_" + op[1])
+        elif name in ("addnew", "setitem_new"):
             col = pattern(op[2], n)
             if last and op[2] == 2:
                 col = col.tolist()
@@ -134,6 +254,10 @@ class Real(object):
             cf.filter(m if sum(op[1]) % 2 else list(m))
         elif name == "removerows":
             vals, tol2 = list(op[2]), op[3]
+            col = cf.getcolumn(op[1])
+            if col.dtype.kind == "i" and len(col) and int(np.max(col)) >= BIG:
+                vals = [v + BIG for v in vals]      # the ids whose labels are vals
+                fam("removerows_bigint")
             if len(vals) > 1:
                 fam("removerows_multi")
             if tol2 == 0:
@@ -173,6 +297,11 @@ class Real(object):
         elif name == "setbig":
             kind, nr, v = op[1], op[2], op[3]
             ar = [pattern(v + i + 1, nr) for i in range(len(cf.titles))]
+            if self.frac and len(ar) > 1 and (nr + v) % 2 and kind != 1:
+                # mixed dtypes come in through set_bigarray(list) as well
+                ar[0] = (ar[0] - self.frac).astype(np.int64)
+                ar[1] = (ar[1] - self.frac + F32).astype(np.float32)
+                fam("setbig_mixed_dtypes")
             if kind == 1:
                 cf.set_bigarray(np.array(ar))
             else:
@@ -215,6 +344,9 @@ class Real(object):
                 memo[k] = conv(c)
             return memo[k]
         st["dcols"] = [tl(c) for c in dcols]
+        st["draw"] = [_raw(c) for c in dcols]
+        st["ddt"] = [_dt(c) for c in dcols]
+        st["raised"] = self.raised
         st["acols"] = [tl(c) for c in acols]
         st["gcols"] = [tl(c) for c in gcols]
         st["icols"] = [tl(c) for c in icols]
@@ -267,6 +399,8 @@ class Real(object):
         st["cpon"] = cp is not None
         st["cpids"] = take(cpcols)
         st["cpcols"] = [tl(c) for c in cpcols]
+        st["cpraw"] = [_raw(c) for c in cpcols]
+        st["cpdt"] = [_dt(c) for c in cpcols]
         st["cptitles"] = list(cp.titles) if cp is not None else []
         st["cpnrows"] = int(cp.nrows) if cp is not None else 0
         st["cpncols"] = int(cp.ncols) if cp is not None else 0
@@ -303,9 +437,21 @@ def _tolist(c):
     if np.isscalar(c):
         return ["scalar", float(c)]
     try:
-        return [int(x) if float(x) == int(x) else float(x) for x in np.asarray(c).ravel()]
+        return [_label(x) for x in np.asarray(c).ravel().tolist()]
     except Exception:
         return ["unprintable", repr(c)]
+
+
+def _raw(c):
+    """the exact values (python int / float: float32 and float64 values are python floats exactly)"""
+    try:
+        return [x if isinstance(x, int) else float(x).hex() for x in np.asarray(c).ravel().tolist()]
+    except Exception:
+        return ["unprintable", repr(c)]
+
+
+def _dt(c):
+    return str(getattr(c, "dtype", type(c).__name__))
 
 
 def _extent(r):
@@ -479,7 +625,44 @@ def direct_property(real, before, op, model_aliased):
             for t, old, new in zip(before["titles"], before["dcols"], real["dcols"]):
                 if [old[i] for i in sel] != new:
                     bad.append("row operation %s not applied uniformly (column %s)" % (op[0], t))
+            # ... and does nothing else to the numbers: exact values, dtype kept
+            bad += _exact("row operation %s" % op[0], before, sel, real["draw"], real["ddt"])
+    if before is not None and op[0] in COPY_OPS and real["cpon"]:
+        sel = _copymap(before, op)
+        bad += _exact("%s: the copy" % op[0], before, sel, real["cpraw"], real["cpdt"])
+    if before is not None and op[0] == "refused":
+        # an operation that raises leaves the object (and the last copy, and the user's reference) as it was
+        diff = [k for k in KEYS + ["draw", "ddt", "cpraw", "cpdt", "partial_overlap"]
+                if k not in ("ret", "retcols") and before.get(k) != real.get(k)]
+        if diff:
+            bad.append("refused operation %s (%s) left a trace in %s: before %s after %s" % (
+                op[1:], real.get("raised") or "did not raise", diff,
+                {k: before.get(k) for k in diff[:4]}, {k: real.get(k) for k in diff[:4]}))
     return bad
+
+
+def _exact(what, before, sel, raw, dts):
+    bad = []
+    for i, t in enumerate(before["titles"]):
+        if i >= len(raw):
+            break
+        want = [before["draw"][i][j] for j in sel]
+        if raw[i] != want or dts[i] != before["ddt"][i]:
+            bad.append("%s changed the numbers of column %s: %s %s before (rows %s), %s %s after" % (
+                what, t, before["ddt"][i], want, sel, dts[i], raw[i]))
+    return bad
+
+
+def _copymap(before, op):
+    n = before["nrows"]
+    if op[0] == "copy":
+        return list(range(n))
+    if op[0] == "copyrows_mask":
+        return [i for i in range(n) if op[1][i] == 1]
+    if op[0] == "copyrows_idx":
+        return [i - 1 for i in op[1]]
+    lo, hi, st = [None if x == 9 else x for x in op[1:4]]
+    return list(range(n))[slice(lo, hi, st)]
 
 
 def _rowmap(before, op):
@@ -602,7 +785,17 @@ def fix_model(st):
     return out
 
 
-STARTS = ["dict", "new", "text", "hdf", "dict_mixed", "dict_strided"]
+STARTS = ["dict", "new", "text", "hdf", "dict_mixed", "dict_strided", "dict_f32first", "dict_bigint"]
+
+
+def pick_start(i, ops):
+    """start form of the i-th replayed history.  dict_bigint is not used for histories that convert the table to
+    one 2-D array (np.asarray rounds int64 beyond 2^53 to float64: outside the statement, see observations) or
+    write a bare label through the user's reference"""
+    sform = STARTS[i % len(STARTS)]
+    if sform == "dict_bigint" and any(o[0] in ("getbig", "mutate_user") for o in ops):
+        sform = "dict_mixed" if (i // len(STARTS)) % 2 else "dict_f32first"
+    return sform
 
 
 def run(tier, replay=None):
@@ -613,11 +806,14 @@ def run(tier, replay=None):
     import io, contextlib
     chk.rule = ("TLC explores Columnfile.tla (repaired-code configuration) breadth first; every transition "
                 "(representative path of each distinct state + one more operation) is replayed on a real columnfile "
-                "started 6 ways (dict, newcolumnfile+addcolumn, text file, hdf file, dict of int64+float32 columns, "
-                "dict of strided views of one block); distinct = distinct operation "
+                "started 8 ways (dict, newcolumnfile+addcolumn, text file, hdf file, dict of strided views of one block, "
+                "dict of int64 + fractional float32, of float32 + float64 beyond 24 bits, of float64 + int64 beyond 2^53); "
+                "refused calls (exception caught) must leave the projection as it was; row operations and copies are "
+                "judged on exact numbers and dtypes; distinct = distinct operation "
                 "sequence; non-trivial = at least 2 operations or a row/copy/bigarray operation")
     chk.assumptions = ["numpy arrays are either the same memory region or disjoint (partial overlaps are flagged)",
-                       "values are small integers (float64; int64 / float32 in one start form); sortby only on columns "
+                       "values are the labels 0..2 (float64) or label + a fixed offset per dtype (1/4, 1/4 + 2^-30, 2^53 + 1) in "
+                       "the three mixed-dtype start forms; no NaN / inf; sortby only on columns "
                        "without ties; removerows tolerances are never at a boundary (|x - v| = tol)",
                        "python lists as array arguments are judged for addcolumn / setcolumn / cf[new] = .. only (the "
                        "repository's own callers and tests pass lists there); for attribute assignment they are not",
@@ -626,14 +822,17 @@ def run(tier, replay=None):
     if replay:
         return run_replay(chk, C, replay)
 
-    # the initial state of the model must be the state of all four start forms
+    # the initial state of the model must be the state of all start forms (labels, alias structure, dtypes)
     init = {"titles": ["a", "b"], "nrows": 3, "ncols": 2, "dcols": [[0, 1, 2], [2, 0, 1]],
             "acols": [[0, 1, 2], [2, 0, 1]], "dids": [1, 2], "aids": [1, 2], "isarr": False, "user": 0,
             "ucol": [], "cpon": False, "cpids": [], "cpcols": [], "cptitles": [], "cpnrows": 0, "cpncols": 0}
     init = fix_model(init)
     with contextlib.redirect_stdout(io.StringIO()):
         for sform in STARTS:
-            d = compare(init, Real(sform, C).project())
+            r0 = Real(sform, C).project()
+            d = compare(init, r0)
+            if r0["ddt"] != START_DTYPES[sform]:
+                d.append("dtypes %s" % r0["ddt"])
             if d:
                 chk.violation("initial state of a %s-started columnfile differs from the specification: %s" % (sform, d),
                               {"start": sform, "ops": []})
@@ -643,7 +842,7 @@ def run(tier, replay=None):
     # quick: one worker. The history is not part of the state identity (VIEW) and the depth bound reads the history:
     # only a strict breadth-first search expands every state at its least depth (16 workers on a loaded box lost up
     # to 40 % of the depth-3 transitions, differently in every run)
-    res = common.run_tlc("Columnfile", cfg("fixed", depth, 1), workers=(1 if tier == "quick" else 16), timeout=1500,
+    res = common.run_tlc("Columnfile", cfg("fixed", depth, 1), workers=(1 if tier == "quick" else WORKERS), timeout=1500,
                          coverage=(tier != "quick"))
     chk.add_tlc("Columnfile fixed depth %d (all transitions)" % depth, res)
     if res.violated:
@@ -669,7 +868,7 @@ def run(tier, replay=None):
                 continue
             seen.add(key)
             model_final = fix_entry(h[-1])
-            sform = STARTS[len(seen) % len(STARTS)]
+            sform = pick_start(len(seen), ops)
             probs = judge(chk, C, ops, model_final, sform)
             chk.case(key, nontrivial=(len(ops) >= 2 or ops[-1][0] not in ("take_attr", "take_item")))
             chk.traces += 1
@@ -689,7 +888,7 @@ def run(tier, replay=None):
 
     # 2. deeper: invariants only (thorough), and random long behaviours with per-step comparison
     if tier == "thorough" and len(chk.violations) == 0:
-        res5 = common.run_tlc("Columnfile", cfg("fixed5", 5, 0), workers=16, timeout=3000)
+        res5 = common.run_tlc("Columnfile", cfg("fixed5", 5, 0), workers=WORKERS, timeout=3000)
         chk.add_tlc("Columnfile fixed depth 5 (invariants)", res5)
         if res5.violated:
             raise common.MachineryError("repaired-code model violates %s at depth 5" % res5.violated)
@@ -712,7 +911,7 @@ def run(tier, replay=None):
                 continue
             seen.add(key)
             k += 1
-            sform = STARTS[k % len(STARTS)]
+            sform = pick_start(k, ops)
             mstates = [fix_entry(e) for e in h]
             probs = judge(chk, C, ops, mstates[-1], sform, model_states=mstates)
             chk.case(key)
@@ -730,7 +929,7 @@ def run(tier, replay=None):
 
     # 3. aliasing hazard: addcolumn(cf.s, t) then a permutation.  TLC finds the non-uniform row operation;
     #    the counterexample is replayed and, when the real code reproduces it, matched against the known finding.
-    resa = common.run_tlc("Columnfile", cfg("alias", 4, 0, alias=True), workers=16, timeout=1500)
+    resa = common.run_tlc("Columnfile", cfg("alias", 4, 0, alias=True), workers=WORKERS, timeout=1500)
     chk.add_tlc("Columnfile AllowAlias depth 4 (expected: RowOpsUniform violated)", resa)
     if "RowOpsUniform" in resa.violated:
         last = resa.trace[-1]["vars"]["hist"]
@@ -754,7 +953,7 @@ def run(tier, replay=None):
                 chk.violation(what, {"start": "dict", "ops": ops, "model_final": mfinal})
         chk.notes["alias_counterexample"] = {"ops": ops, "reproduced_on_real_code": confirmed}
         # conformance of the aliased behaviours (model predicts the double permutation exactly)
-        resb = common.run_tlc("Columnfile", cfg("aliasconf", 3, 3, alias=True, props=False), workers=16, timeout=1500)
+        resb = common.run_tlc("Columnfile", cfg("aliasconf", 3, 3, alias=True, props=False), workers=WORKERS, timeout=1500)
         chk.add_tlc("Columnfile AllowAlias depth 3 (conformance of aliased behaviours)", resb)
         with contextlib.redirect_stdout(io.StringIO()):
             for line in resb.printed:
@@ -781,9 +980,9 @@ def run(tier, replay=None):
     if tier == "thorough":
         expect = {"BUG_GETBIG": "SameStorage", "BUG_SCALAR": "ViewsAgree", "BUG_ARRATTR": "SameStorage",
                   "BUG_ADDARR": "NoError", "BUG_SLICE": "CopiesDisjoint", "BUG_CPNCOLS": "CopyRectangular",
-                  "BUG_OVERLIST": "ViewsAgree"}
+                  "BUG_OVERLIST": "ViewsAgree", "BUG_REFUSED_NROWS": "Rectangular"}
         for b, inv in expect.items():
-            r = common.run_tlc("Columnfile", cfg("bug_" + b, 4, 0, bugs=(b,)), workers=16, timeout=900)
+            r = common.run_tlc("Columnfile", cfg("bug_" + b, 4, 0, bugs=(b,)), workers=WORKERS, timeout=900)
             chk.add_tlc("Columnfile %s (expected: %s violated)" % (b, inv), r)
             if not r.violated:
                 raise common.MachineryError("configuration %s no longer violates any invariant (vacuity)" % b)
@@ -907,5 +1106,27 @@ def selftest(C=None):
     doctored["cpncols"] = 0
     if not any("copy has ncols" in b for b in direct_property(doctored, before2, ["copy"], False)):
         raise common.MachineryError("selftest: a copy with ncols 0 is not rejected")
+    # exact numbers / dtypes of a row operation, and a refused call that leaves a trace
+    with contextlib.redirect_stdout(io.StringIO()):
+        real3, before3, err, _ = replay_ops(C, "dict_mixed", [["reorder", [2, 1, 3]]])
+    if err or direct_property(real3, before3, ["reorder", [2, 1, 3]], False):
+        raise common.MachineryError("selftest: a plain reorder of the mixed-dtype table is rejected")
+    doctored = json.loads(json.dumps(real3))
+    doctored["draw"][1] = [float(int(float.fromhex(x))).hex() for x in doctored["draw"][1]]
+    if not any("changed the numbers" in b for b in direct_property(doctored, before3, ["reorder", [2, 1, 3]], False)):
+        raise common.MachineryError("selftest: truncated float32 values after reorder are not rejected")
+    doctored = json.loads(json.dumps(real3))
+    doctored["ddt"][1] = "float64"
+    if not any("changed the numbers" in b for b in direct_property(doctored, before3, ["reorder", [2, 1, 3]], False)):
+        raise common.MachineryError("selftest: a changed dtype after reorder is not rejected")
+    rop = ["refused", "setbig_ragged", 2, 3]
+    with contextlib.redirect_stdout(io.StringIO()):
+        real4, before4, err, _ = replay_ops(C, "dict", [rop])
+    if err or real4["raised"] is None or direct_property(real4, before4, rop, False):
+        raise common.MachineryError("selftest: a refused ragged set_bigarray is not refused cleanly")
+    doctored = json.loads(json.dumps(real4))
+    doctored["nrows"] = 2
+    if not any("left a trace" in b for b in direct_property(doctored, before4, rop, False)):
+        raise common.MachineryError("selftest: a refused call that changed nrows is not rejected")
     if known_problem([["copy"]], 0, before2, doctored):
         raise common.MachineryError("selftest: the copyrows-ncols matcher accepts a copy() with ncols 0")
